@@ -6,45 +6,62 @@
 From Coq Require Import Reals Bool List.
 From Coquelicot Require Import Coquelicot.
 From RV Require Import Base.RB Gen.GenC10Triplet Gen.GenC10Hem Gen.GenC10Merton Gen.GenC10Vg Gen.GenC10Cgmy Gen.GenC10Bs Gen.GenC10Exp
-  Gen.GenC09Hem Model.LevyExponent Proofs.C10_Triplet Proofs.C10_Exponent Proofs.C10_HemLK Proofs.C10_Cgmy.
+  Gen.GenC09Hem Model.LevyClosedForms Model.LevyExponent Proofs.C10_Triplet Proofs.C10_Exponent Proofs.C10_HemLK Proofs.C10_Cgmy.
 Import ListNotations.
 Open Scope R_scope.
 
-(* --- converting the drift between representations is path-independent and reversible:
-       for every measure (m1 = its first-moment function, fv = finite variation flag), every triplet, all representations *)
+(* --- converting the drift between representations is path-independent and reversible: for every measure (m1 = its
+       first-moment function, fv = finite-variation flag), every triplet, all representations ADMISSIBLE for the measure:
+       the ZERO representation exists only for jumps of finite variation (the code raises ValueError otherwise, modelled as the
+       value 0 -- C10_conversions_zero_needs_finite_variation), so valid_rep fv r := fv = true \/ r <> ZERO guards every statement;
+       C10_conversions_need_guard shows the unguarded statement is false in the model. *)
 Theorem C10_conversions_path_independent : forall INF m1 fv r1 r2 r3 t,
+  valid_rep fv (t_rep t) -> valid_rep fv r1 -> valid_rep fv r2 -> valid_rep fv r3 ->
   set_representation INF m1 fv r3 (set_representation INF m1 fv r2 (set_representation INF m1 fv r1 t))
   = set_representation INF m1 fv r3 t.
 Proof. exact conversions_path_independent_3. Qed.
 Theorem C10_conversions_any_sequence : forall INF m1 fv rs r t,
+  valid_rep fv (t_rep t) -> List.Forall (valid_rep fv) rs -> valid_rep fv r ->
   set_representation INF m1 fv r (set_representations INF m1 fv rs t) = set_representation INF m1 fv r t.
 Proof. exact conversions_path_independent. Qed.
 Theorem C10_conversions_reversible : forall INF m1 fv rs t,
+  valid_rep fv (t_rep t) -> List.Forall (valid_rep fv) rs ->
   set_representation INF m1 fv (t_rep t) (set_representations INF m1 fv rs t) = t.
 Proof. exact conversions_reversible. Qed.
-Theorem C10_conversions_meaning : forall INF m1 fv r t,
+Theorem C10_conversions_meaning : forall INF m1 fv r t, valid_rep fv r -> valid_rep fv (t_rep t) ->
   t_rep (set_representation INF m1 fv r t) = r /\
   t_a (set_representation INF m1 fv r t) = of_canonical INF m1 fv r (to_canonical INF m1 fv (t_rep t) (t_a t)).
 Proof. exact set_representation_meaning. Qed.
+Theorem C10_conversions_zero_needs_finite_variation : forall INF m1 fv a r, fv = false ->
+  zero_drift INF m1 fv a (rep_code r) = 0 /\ canonical_drift INF m1 fv a (rep_code ZERO) = 0.
+Proof. exact zero_needs_finite_variation. Qed.
+Theorem C10_conversions_need_guard : exists INF m1 t,
+  set_representation INF m1 false CENTER (set_representation INF m1 false ZERO t) <> set_representation INF m1 false CENTER t.
+Proof. exact conversions_need_guard. Qed.
 
-(* --- martingale: characteristic function at -i (omega = -kappa(1)) *)
-Theorem C10_martingale_cf : forall log_spot r d a sigma pj t,
+(* --- characteristic-function route.  ALGEBRA, true by construction for any a, sigma, pj: omega = -kappa(1) cancels kappa(1);
+       kappa, omega_of and expected_spot_cf are hand models of levy_exponent(-i s), omega and log_characteristic_function(t,-1j),
+       tied to the code by interval case lemmas. *)
+Theorem C10_martingale_cf_algebra : forall log_spot r d a sigma pj t,
   expected_spot_cf log_spot r d a sigma pj t = exp log_spot * exp ((r - d) * t).
 Proof. exact martingale_cf. Qed.
-(* --- martingale: drift of the directly simulated log-process (growth rate = process_drift + sigma^2/2 + pj(1)) *)
+(* --- drift of the directly simulated log-process (generated from the source): growth rate process_drift + sigma^2/2 + pj(1)
+       is r - d.  That pj(1) IS the exponential moment int (e^x - 1) nu of the simulated jumps is C10_hem_exponent for HEM
+       (hence 1 < eta1: for eta1 <= 1 the moment is infinite and the code now raises) and the quadrature oracle for Merton. *)
 Theorem C10_martingale_direct_bs : forall r d sigma, direct_growth (bs_process_drift r d sigma) sigma (bs_pj 1) = r - d.
 Proof. exact martingale_direct_bs. Qed.
 Theorem C10_martingale_direct_merton : forall r d sigma lam mu_j sigma_j,
   direct_growth (merton_process_drift r d sigma lam mu_j sigma_j) sigma (merton_pj lam mu_j sigma_j 1) = r - d.
 Proof. exact martingale_direct_merton. Qed.
-Theorem C10_martingale_direct_hem : forall r d sigma lam p eta1 eta2, eta1 <> 1 -> eta2 <> -1 ->
-  direct_growth (hem_process_drift r d sigma lam (hem_xi p eta1 eta2)) sigma (hem_pj lam p eta1 eta2 1) = r - d.
+Theorem C10_martingale_direct_hem : forall r d sigma lam p eta1 eta2, 1 < eta1 -> eta2 <> -1 ->
+  direct_growth (hem_process_drift r d sigma lam eta1 (hem_xi p eta1 eta2)) sigma (hem_pj lam p eta1 eta2 1) = r - d.
 Proof. exact martingale_direct_hem. Qed.
-Theorem C10_forward_direct : forall x0 pd sigma J0 r d t, direct_growth pd sigma J0 = r - d ->
+Theorem C10_forward_direct_algebra : forall x0 pd sigma J0 r d t, direct_growth pd sigma J0 = r - d ->
   exp (deterministic_path x0 pd t) * exp (t * (sigma ^ 2 / 2 + J0)) = exp x0 * exp ((r - d) * t).
 Proof. exact forward_direct. Qed.
 
-(* --- cumulants are the derivatives of the exponent at zero (times t) *)
+(* --- cumulants of ORDER 1 AND 2 are the first / second derivative of the exponent at zero (times t).  Orders 4 and 6 are checked
+       by the Cauchy-integral oracle only; orders 3 and 5 are not offered by the library (NotImplementedError). *)
 Theorem C10_cumulants_hem : forall a sigma lam p eta1 eta2, 0 < eta1 -> 0 < eta2 -> forall t,
   (is_derive (kappa a sigma (hem_pj lam p eta1 eta2)) 0 (hem_cumulant1 a lam p eta1 eta2 1)
    /\ hem_cumulant1 a lam p eta1 eta2 t = t * hem_cumulant1 a lam p eta1 eta2 1) /\
@@ -86,21 +103,45 @@ Theorem C10_hem_exponent : forall lam p eta1 eta2 s, 0 < eta1 -> 0 < eta2 -> - e
   hem_pj lam p eta1 eta2 s = Ln lam p eta2 s + Lp lam p eta1 s.
 Proof. exact hem_exponent_is_LK. Qed.
 
-(* --- martingale: drift of the Markov-chain approximation (model.drift() + a_tilde + mu_tilde - mu_h) with the exact jump law.
-   Hypotheses: the first-moment function is additive at 0 (C09_additive) and H_rep: the exponent at 1 equals the CENTER form
-   center_drift + sigma^2/2 + int (e^x - 1 - x) nu  (proved below for every model declared ZERO whose exponent is int (e^{sx}-1) nu). *)
-Theorem C10_martingale_ctmc : forall INF m1 fv a0 rep,
+(* --- Markov-chain route.  The chain (markovchain.py) truncates the measure, converts the triplet to TILDE with the
+   TRUNCATED first moments, and uses drift = model.drift() + a_tilde + mu_tilde - mu_h.
+   (1) ALGEBRA (C10_ctmc_route_algebra): with Jc a free number, the growth under "the exact law" is
+       r - d - (kappa(1) - (center_drift + sigma^2/2 + Jc)); it carries no measure or integral.
+   (2) CONTENT for HEM without truncation (C10_martingale_ctmc_hem): Jc is the limit of the integrals of (e^x - 1 - x) times the
+       generated density, the first-moment function is the generated closed form, and the growth is r - d.
+   (3) With truncation (what the code does) the route is NOT a martingale: C10_ctmc_truncation_bias_zero / _refuted: for a model
+       declared ZERO the growth misses r - d by J0 - J0t = int_outside (e^x - 1) nu (finding F-C10-5, recorded KNOWN). *)
+Theorem C10_ctmc_route_algebra : forall INF m1 fv a0 rep,
   (fv = true -> m1 (- INF) (- 0) + m1 0 INF = m1 (- INF) (-1) + m1 (-1) 1 + m1 1 INF) ->
   forall r d sigma (pj : R -> R) Jc mu_h,
-  kappa a0 sigma pj 1 = center_drift INF m1 fv a0 (rep_code rep) + sigma ^ 2 / 2 + Jc ->
   ctmc_growth_exact
     (ctmc_process_drift (exp_model_drift r d (omega_of a0 sigma pj)) (tilde_drift INF m1 fv a0 (rep_code rep))
-                        (ctmc_mu_tilde INF m1 fv) mu_h) mu_h sigma Jc = r - d.
-Proof. exact martingale_ctmc. Qed.
-Theorem C10_Hrep_zero_declared : forall INF m1 fv a0 sigma (pj : R -> R) J0 Iall,
-  pj 1 = J0 -> Iall = m1 (- INF) (-1) + m1 (-1) 1 + m1 1 INF ->
-  kappa a0 sigma pj 1 = center_drift INF m1 fv a0 (rep_code ZERO) + sigma ^ 2 / 2 + (J0 - Iall).
-Proof. exact Hrep_zero_declared. Qed.
+                        (ctmc_mu_tilde INF m1 fv) mu_h) mu_h sigma Jc
+  = r - d - (kappa a0 sigma pj 1 - (center_drift INF m1 fv a0 (rep_code rep) + sigma ^ 2 / 2 + Jc)).
+Proof. exact ctmc_growth_algebra. Qed.
+Theorem C10_martingale_ctmc_hem : forall INF lam p eta1 eta2 r d sigma mu_h, 1 < eta1 -> 0 < eta2 -> 0 < INF ->
+  is_lim (fun a => RInt (fun x => (exp x - 1 - x) * hem_nu lam p eta1 eta2 x) a 0) m_infty (JcN lam p eta2) /\
+  is_lim (fun b => RInt (fun x => (exp x - 1 - x) * hem_nu lam p eta1 eta2 x) 0 b) p_infty (JcP lam p eta1) /\
+  ctmc_growth_exact
+    (ctmc_process_drift (exp_model_drift r d (omega_of (hem_a lam p eta1 eta2) sigma (hem_pj lam p eta1 eta2)))
+       (tilde_drift INF (hem_integrate_x INF lam p eta1 eta2) true (hem_a lam p eta1 eta2) (rep_code ZERO))
+       (ctmc_mu_tilde INF (hem_integrate_x INF lam p eta1 eta2) true) mu_h) mu_h sigma (JcN lam p eta2 + JcP lam p eta1) = r - d.
+Proof. exact hem_ctmc_route. Qed.
+Theorem C10_ctmc_truncation_bias_zero : forall INF m1t a0 r d sigma (pj : R -> R) J0 J0t It mu_h,
+  (m1t (- INF) (- 0) + m1t 0 INF = m1t (- INF) (-1) + m1t (-1) 1 + m1t 1 INF) ->
+  pj 1 = J0 -> It = m1t (- INF) (-1) + m1t (-1) 1 + m1t 1 INF ->
+  ctmc_growth_exact
+    (ctmc_process_drift (exp_model_drift r d (omega_of a0 sigma pj)) (tilde_drift INF m1t true a0 (rep_code ZERO))
+                        (ctmc_mu_tilde INF m1t true) mu_h) mu_h sigma (J0t - It)
+  = r - d - (J0 - J0t).
+Proof. exact ctmc_truncation_bias_zero. Qed.
+Theorem C10_ctmc_truncation_refuted : exists INF m1t a0 r d sigma (pj : R -> R) J0t It mu_h,
+  (m1t (- INF) (- 0) + m1t 0 INF = m1t (- INF) (-1) + m1t (-1) 1 + m1t 1 INF) /\
+  It = m1t (- INF) (-1) + m1t (-1) 1 + m1t 1 INF /\ J0t < pj 1 /\
+  ctmc_growth_exact
+    (ctmc_process_drift (exp_model_drift r d (omega_of a0 sigma pj)) (tilde_drift INF m1t true a0 (rep_code ZERO))
+                        (ctmc_mu_tilde INF m1t true) mu_h) mu_h sigma (J0t - It) <> r - d.
+Proof. exact ctmc_truncation_refuted. Qed.
 
 (* non-vacuity: a concrete chain of conversions *)
 Example C10_nonvacuous : forall INF m1,
@@ -112,15 +153,19 @@ Print Assumptions C10_conversions_path_independent.
 Print Assumptions C10_conversions_any_sequence.
 Print Assumptions C10_conversions_reversible.
 Print Assumptions C10_conversions_meaning.
-Print Assumptions C10_martingale_cf.
+Print Assumptions C10_conversions_zero_needs_finite_variation.
+Print Assumptions C10_conversions_need_guard.
+Print Assumptions C10_martingale_cf_algebra.
 Print Assumptions C10_martingale_direct_bs.
 Print Assumptions C10_martingale_direct_merton.
 Print Assumptions C10_martingale_direct_hem.
-Print Assumptions C10_forward_direct.
+Print Assumptions C10_forward_direct_algebra.
 Print Assumptions C10_cumulants_hem.
 Print Assumptions C10_cumulants_merton.
 Print Assumptions C10_cumulants_vg.
 Print Assumptions C10_cumulants_cgmy_partial.
 Print Assumptions C10_hem_exponent.
-Print Assumptions C10_martingale_ctmc.
-Print Assumptions C10_Hrep_zero_declared.
+Print Assumptions C10_ctmc_route_algebra.
+Print Assumptions C10_martingale_ctmc_hem.
+Print Assumptions C10_ctmc_truncation_bias_zero.
+Print Assumptions C10_ctmc_truncation_refuted.
